@@ -115,6 +115,19 @@ def gen_cases(spec, ctx):
                 b = {"c": [5], "d": 5}
                 t = tb = "json"
                 mode = []
+            if i % 12 in (3, 9):
+                # edited strings with features a string formatter branches on (embedded newlines -> YAML block scalars, quotes,
+                # long lines), next to edited plain ones, in every output format: a formatter that remembers something about the
+                # previous string it printed makes the rendering depend on what was printed before
+                feats = ["l1\nl2", "l1\nl2\n", "a\n\nb", "plain", "x", 'q"r', "it's", "w " * 30, "k: v", "- x", "#c", " pad "]
+                keys = r.sample(["s", "t", "u", "v", "w"], r.randint(2, 4))
+                a = {k: r.choice(feats) for k in keys}
+                b = {k: (v + r.choice(["!", "\nmore", "z"]) if r.random() < 0.8 else v) for k, v in a.items()}
+                if r.random() < 0.5:
+                    a, b = [a, "x"], [b, "y"]
+                t = tb = r.choice(["json", "yaml"])
+                mode = r.choice([["--format", "yaml"], ["--format", "yaml"], [], ["--format", "json5"], ["--format", "plist"],
+                                 ["--format", "xml"], ["--format", "csv"], ["--format", "yaml", "-j"]])
             cases.append({"a": a, "b": b, "ds": ds, "le": le, "mode": mode, "idx": i, "kind": st, "type": t, "type_b": tb})
         # the schedule dimension: every other hash seed runs the same batch in reverse order, so that a result which
         # depends on what the process did before shows up as a cross-process digest mismatch
